@@ -811,7 +811,7 @@ func LoadContractFile(path string, trusted bool) (*ContractSet, error) {
 					}
 				case "purefield":
 					fs.PureFlds = append(fs.PureFlds, strings.Fields(c.Text)...)
-				case "modifies", "cases", "havoc", "loopmodifies", "frame", "event":
+				case "modifies", "cases", "havoc", "loopmodifies", "frame", "event", "replay":
 					if c.Props == nil {
 						c.Props = fs.Props
 					}
